@@ -16,9 +16,9 @@ variable {α : Type} [Num α]
 theorem source_parse_color_to_rgb (E : PEnv) (color : PyVal α) (background : Option RGB) :
     CmGen.ParserSeq.parse_color_to_rgb (CmGen.ParserSrc.parse_color_string (α := α) E) E color background
       = parseColor E color background := by
-  have h : CmGen.ParserSrc.parse_color_string (α := α) E = parseStr E := by
+  have h : CmGen.ParserSrc.parse_color_string (α := α) E = parseStr (α := α) E := by
     funext s bg
-    exact source_parse_color_string E s bg
+    exact source_parse_color_string (α := α) E s bg
   rw [h]
   exact CmProps.C14.source_parse_color_dispatch E color background
 
